@@ -65,7 +65,12 @@ def build(cfg):
         if c == "SingleMemory":
             return cs.SingleMemoryStorageSchedule()
         if c == "SingleDisk":
-            return cs.SingleDiskStorageSchedule(move_data=p["move"])
+            move = p["move"]
+            if move == "np":
+                # a truthy flag that is not the True singleton
+                import numpy
+                move = numpy.bool_(True)
+            return cs.SingleDiskStorageSchedule(move_data=move)
         if c == "Multistage":
             return cs.MultistageCheckpointSchedule(
                 N, p["r"], p["d"], trajectory=p["traj"])
